@@ -18,6 +18,14 @@ interleavings), invariants are proved by induction over `run`.
 * `no_lost_update_partial` — with the integer counter the same holds unless a
   deleted primary key was inserted again; `no_lost_update_counterexample` is that
   ABA history (the full statement is false of the model and of the code).
+* `failed_commit_leaves_nothing_to_write`, `failed_commit_then_commit_db_unchanged` — a
+  rejected flush leaves no pending object, deletion mark or modified object behind, also
+  when it ran inside a SAVEPOINT that alone is rolled back (the enclosing transaction
+  commits): the rejected change is never applied later.  Uses the regenerated
+  `savepointRollbackExpiresModified`.
+* `writer_version_eq_row_after_commit` — every record of a successful flush leaves its
+  object with the version stored in its own row (one UPDATE per versioned record:
+  regenerated `versionedUpdateExecutemany = false`).
 * `commit_applies_pending_partial` / `commit_applies_pending_counterexample` — a
   successful commit stores every pending object, except in the row-switch corner
   transcribed as `Act.insDel` (finding).
@@ -35,6 +43,15 @@ theorem counter_step_pos : 0 < counterStep := by decide
 
 /-- a fresh row gets a non-zero version (so `(x or start)` never sees 0 again) -/
 theorem counter_first_pos : 0 < counterStart + counterStep := by decide
+
+/-- `persistence._emit_update_statements`: `allow_executemany` excludes versioned rows
+    (`… and not needs_version_id`), so each versioned record is its own UPDATE statement and is
+    post-fetched from its own parameters.  Read from the source on every run. -/
+theorem versioned_update_row_by_row : versionedUpdateExecutemany = false := by decide
+
+/-- `SessionTransaction._restore_snapshot(dirty_only=True)`: the states expired when a
+    SAVEPOINT is rolled back include the modified ones.  Read from the source on every run. -/
+theorem savepoint_rollback_expires_modified : savepointRollbackExpiresModified = true := by decide
 
 /-! ## a stale flush fails and changes nothing -/
 
@@ -174,7 +191,7 @@ theorem flushOk_sess_self (c : Cfg) (st : St) (s k : Nat) :
   simp only [flushOk, updSess_same, if_true]
   by_cases hk : k < c.npk
   · simp only [if_pos hk]
-    rw [afterFlushSlot_tick]
+    rw [batchFix_eq versioned_update_row_by_row, afterFlushSlot_tick]
   · simp only [if_neg hk]
 
 theorem flushOk_lost (c : Cfg) (st : St) (s : Nat) :
@@ -206,6 +223,127 @@ theorem lostAt_false_of_seen (sl : Slot) (row : Option Row)
     first
     | rfl
     | (rename_i p r; simpa [hr] using aux p r hp hr)
+
+/-! ## a failed flush leaves nothing behind; the writer carries the version it wrote -/
+
+/-- a slot the next flush has nothing to do for -/
+def SlotIdle (sl : Slot) : Prop :=
+  sl.pend = none ∧ ∀ p, sl.pers = some p → p.mod = false ∧ p.del = false
+
+theorem actOf_idle {sl : Slot} (h : SlotIdle sl) (row : Option Row) : actOf sl row = .nothing := by
+  obtain ⟨pers, pend⟩ := sl
+  obtain ⟨h1, h2⟩ := h
+  simp only at h1 h2
+  subst h1
+  cases pers with
+  | none => rfl
+  | some p =>
+    obtain ⟨hm, hd⟩ := h2 p rfl
+    simp [actOf, hm, hd]
+
+theorem rollbackSlot_idle (sl : Slot) : SlotIdle (rollbackSlot sl) := by
+  refine ⟨rfl, ?_⟩
+  intro p hp
+  unfold rollbackSlot at hp
+  cases h : sl.pers with
+  | none => simp [h] at hp
+  | some q =>
+    simp only [h, Option.map_some, Option.some.injEq] at hp
+    subst hp
+    exact ⟨rfl, rfl⟩
+
+theorem spRollbackSlot_idle (sl : Slot) : SlotIdle (spRollbackSlot sl) := by
+  refine ⟨rfl, ?_⟩
+  intro p hp
+  unfold spRollbackSlot at hp
+  cases h : sl.pers with
+  | none => simp [h] at hp
+  | some q =>
+    simp only [h, Option.map_some, Option.some.injEq] at hp
+    subst hp
+    unfold spRollbackObj
+    rw [savepoint_rollback_expires_modified, Bool.and_true]
+    by_cases hm : q.mod = true
+    · simp [hm, expiredObj]
+    · simp [hm]
+
+theorem expireSlot_idle {sl : Slot} (h : sl.pend = none) : SlotIdle (expireSlot sl) := by
+  refine ⟨h, ?_⟩
+  intro p hp
+  unfold expireSlot at hp
+  cases hq : sl.pers with
+  | none => simp [hq] at hp
+  | some q =>
+    simp only [hq, Option.map_some, Option.some.injEq] at hp
+    subst hp
+    exact ⟨rfl, rfl⟩
+
+theorem failSlot_idle (insp eoc : Bool) (sl : Slot) : SlotIdle (failSlot insp eoc sl) := by
+  unfold failSlot
+  split
+  · split
+    · exact expireSlot_idle (spRollbackSlot_idle sl).1
+    · exact spRollbackSlot_idle sl
+  · exact rollbackSlot_idle sl
+
+/-- **failed_commit_leaves_nothing_to_write**: after a commit that did not succeed — followed
+    by `rollback()`, or, when the flush ran inside a SAVEPOINT, by a rollback of the SAVEPOINT
+    only and a commit of the enclosing transaction — the session holds no pending object, no
+    deletion mark and no modified object: the rejected write cannot be applied later. -/
+theorem failed_commit_leaves_nothing_to_write (c : Cfg) (st : St) (s : Nat)
+    (h : (step c st (.commit s)).2 ≠ .flush .ok) (k : Nat) :
+    SlotIdle ((step c st (.commit s)).1.sess s k) := by
+  simp only [step, doFlush, Bool.not_true, Bool.false_and, Bool.false_eq_true, if_false] at h ⊢
+  split
+  · rename_i ho
+    simp [ho] at h
+  · simp only [updSess_same]
+    exact failSlot_idle _ _ _
+
+/-- a commit of a session that has nothing to flush leaves the table alone -/
+theorem idle_commit_db_unchanged (c : Cfg) (st : St) (s : Nat)
+    (h : ∀ k, k < c.npk → SlotIdle (st.sess s k)) : (step c st (.commit s)).1.db = st.db := by
+  by_cases hok : (step c st (.commit s)).2 = .flush .ok
+  · obtain ⟨_, hst⟩ := commit_ok_state c st s hok
+    rw [hst]
+    funext k
+    rw [flushOk_db]
+    split
+    · rename_i hk
+      rw [actOf_idle (h k hk)]
+      rfl
+    · rfl
+  · exact failed_commit_db_unchanged c st s hok
+
+/-- **failed_commit_then_commit_db_unchanged**: the commit that follows a rejected one (no new
+    modification in between) writes nothing — the rejected change does not come back. -/
+theorem failed_commit_then_commit_db_unchanged (c : Cfg) (st : St) (s : Nat)
+    (h : (step c st (.commit s)).2 ≠ .flush .ok) :
+    (step c (step c st (.commit s)).1 (.commit s)).1.db = st.db := by
+  rw [idle_commit_db_unchanged c _ s (fun k _ => failed_commit_leaves_nothing_to_write c st s h k)]
+  exact failed_commit_db_unchanged c st s h
+
+/-- **writer_version_eq_row_after_commit**: after a successful commit the row written for `k`
+    (UPDATE, row switch or INSERT) exists and, unless expire_on_commit wiped it, the writer's
+    object carries exactly the version and content stamp now stored in that row — for every
+    record of the flush, whatever the other records of the same flush are. -/
+theorem writer_version_eq_row_after_commit (c : Cfg) (st : St) (s k : Nat)
+    (hok : (step c st (.commit s)).2 = .flush .ok) (hk : k < c.npk)
+    (hw : isUpdAct (actOf (st.sess s k) (st.db k)) = true ∨ ∃ v, actOf (st.sess s k) (st.db k) = .ins v) :
+    ∃ r', (step c st (.commit s)).1.db k = some r' ∧
+      (c.eoc = false → ∃ p', ((step c st (.commit s)).1.sess s k).pers = some p' ∧
+        p'.ver = some r'.ver ∧ p'.seen = r'.stamp) := by
+  obtain ⟨_, hst⟩ := commit_ok_state c st s hok
+  rw [hst, flushOk_db, if_pos hk, flushOk_sess_self]
+  simp only [if_pos hk]
+  unfold afterFlushSlot
+  rcases hw with hu | ⟨v, hv⟩
+  · cases ha : actOf (st.sess s k) (st.db k) <;> simp only [ha, isUpdAct] at hu <;> try cases hu
+    all_goals
+      simp only [applyRow]
+      exact ⟨_, rfl, fun he => by simp [he]⟩
+  · simp only [hv, applyRow]
+    exact ⟨_, rfl, fun he => by simp [he]⟩
 
 /-! ### generator of never-used values -/
 
@@ -720,6 +858,29 @@ example :
     (step c st (.commit 1)).2 = .flush .ok ∧ 
     ((step c st (.commit 1)).1.db 1).map (·.val) = some 8 ∧
     ((step c st (.commit 1)).1.db 1).map (·.ver) = (st.db 1).map (·.ver + counterStep) := by decide
+
+/-- a stale flush inside a SAVEPOINT (`nested`): session 1 loaded row 0 (version 1), session 0
+    committed version 2; session 1 opens a SAVEPOINT, modifies, flushes: stale; the SAVEPOINT
+    is rolled back and the enclosing transaction committed: the object is expired, the table
+    keeps session 0's value, and a further commit of session 1 succeeds without writing -/
+example :
+    let c : Cfg := ⟨.counter, false, 1⟩
+    let st := run c St.init [.add 0 0 1, .commit 0, .get 1 0, .set 0 0 2, .commit 0, .nested 1, .set 1 0 3]
+    st.sp 1 = true ∧
+    (step c st (.commit 1)).2 = .flush .stale ∧
+    ((step c st (.commit 1)).1.sess 1 0).pers.map (fun p => (p.ver, p.val, p.mod)) = some (none, none, false) ∧
+    (step c (step c st (.commit 1)).1 (.commit 1)).2 = .flush .ok ∧
+    ((step c (step c st (.commit 1)).1 (.commit 1)).1.db 0).map (fun r => (r.val, r.ver)) = some (2, 2) := by decide
+
+/-- one flush, two rows with different versions (row 0 at 2, row 1 at 1): each object gets
+    the version of its own row -/
+example :
+    let c : Cfg := ⟨.counter, false, 2⟩
+    let st := run c St.init [.add 0 0 1, .add 0 1 1, .commit 0, .set 0 0 2, .commit 0, .set 0 0 3, .set 0 1 3]
+    (step c st (.commit 0)).2 = .flush .ok ∧
+    ((step c st (.commit 0)).1.db 0).map (·.ver) = some 3 ∧ ((step c st (.commit 0)).1.db 1).map (·.ver) = some 2 ∧
+    ((step c st (.commit 0)).1.sess 0 0).pers.map (·.ver) = some (some 3) ∧
+    ((step c st (.commit 0)).1.sess 0 1).pers.map (·.ver) = some (some 2) := by decide
 
 /-- fresh generator: the ABA history is caught (stale), nothing is lost -/
 example : (run ⟨.fresh, false, 1⟩ St.init abaOps).lost = false ∧
